@@ -53,7 +53,9 @@ ASSUMPTIONS = [
 RULE = (
     "case = api (low-level generator / misc+_ClientContext stack) x addresses (1-3) x datagrams received before serve() "
     "(0-3, or a backlog of 17-60 with arrivals in the turns right after serve() starts) x "
-    "per-address generator programs (suspensions, yield with/without timeout, return, raise, raise CancelledError) x per-turn script (arrivals with "
+    "per-address generator programs (suspensions, yield with/without timeout, return, raise, raise CancelledError, raise an "
+    "ExceptionGroup — flat / nested / mixed with ClientClosedError / the one of a real asyncio.TaskGroup whose child fails) x "
+    "default / eager task factory (eager: oracle only) x per-turn script (arrivals with "
     "optional suspension of the handler at the condition lock, gate releases, clock advances) x never-released addresses; "
     "non-trivial = queued while running, restart by the task-done hook, discard before first yield, timeout, suspended push, "
     "blocked neighbour (class = first two that apply); distinct by case digest"
@@ -69,10 +71,15 @@ def run_real(case: dict) -> list[str]:
 def real_for_diff(case: dict, real: list[str]) -> list[str]:
     # a generator that ends by raising CancelledError is, for the model, a generator that finishes with an exception
     # swallowed above it (label `ge`, written `end a e`): the cancelled task is tolerated by the task group
-    return [(ln[:-1] + "e" if ln.startswith("end ") and ln.endswith(" c") else ln) for ln in real if ln.split()[0] not in NOISE]
+    # (the same for one that ends with an exception group: `end a g`)
+    return [(ln[:-1] + "e" if ln.startswith("end ") and ln.endswith((" c", " g")) else ln) for ln in real if ln.split()[0] not in NOISE]
 
 
 def model_input(case: dict, real: list[str]):
+    if case.get("eager"):
+        # on an eager-task loop a task's first step runs inside start_soon(): the (loop turn, task) bookkeeping that tells
+        # the trace labels rs / wk apart no longer identifies the model's atomic steps: oracle only
+        return None
     ops: list[str] = []
     for ln in real_for_diff(case, real):
         k = ln.split()[0]
@@ -159,8 +166,12 @@ def nontrivial(case: dict, real: list[str]) -> str | None:
         tags.append("parse-error")
     if any(ln.startswith("end ") and ln.endswith(" c") for ln in real):
         tags.insert(0, "cancelled-end")
+    if any(ln.startswith("end ") and ln.endswith(" g") for ln in real):
+        tags.insert(0, "group-end")
     if len(case.get("early", [])) > 16:
         tags.insert(0, "backlog")
+    if case.get("eager"):
+        tags.insert(0, "eager")
     if not tags:
         return None
     return case.get("api", "low") + "/" + "+".join(tags[:2])
@@ -199,6 +210,8 @@ def shrink(case: dict):
                     yield {**case, "progs": {**progs, a: progs[a][:i] + [p[:j] + [{**p[j], "s": 0}] + p[j + 1:]] + progs[a][i + 1:]}}
     if case.get("never"):
         yield {**case, "never": []}
+    if case.get("eager"):
+        yield {**case, "eager": False}
     if case.get("api") == "high":
         yield {**case, "api": "low"}
 
@@ -252,6 +265,31 @@ def corpus() -> list[dict]:
         cs.append({"api": api, "naddr": 1, "early": [], "progs": {"0": [[C], [Y, C], [{"s": 0, "do": "c"}], [Y]]},
                    "script": [[["a", 0, "01"], ["a", 0, "02"], ["a", 0, "03"]], [["g", 0], ["a", 0, "04", 1]], [["g", 0]],
                               [["a", 0, "05"]]], "never": []})
+    # a generator that ends with an ExceptionGroup (a handler working in an asyncio.TaskGroup whose child fails; groups
+    # built by hand: flat, nested, mixed with ClientClosedError, only ClientClosedError) while datagrams of its address are
+    # queued behind it / arrive in the same turn / later: _ClientContext.__aexit__ swallows and logs it, a fresh generator
+    # takes what is queued, in order; the neighbour is not affected; serve() does not end.  Also on an eager-task loop.
+    for end in ({"s": 1, "do": "tg", "n": 1}, {"s": 0, "do": "tg", "n": 2}, {"s": 1, "do": "g", "tree": ["g", "RuntimeError"]},
+                {"s": 1, "do": "g", "tree": ["g", ["g", "ValueError"], "OSError"]},
+                {"s": 0, "do": "g", "tree": ["g", "ClientClosedError", "RuntimeError"]},
+                {"s": 1, "do": "g", "tree": ["g", "ClientClosedError"]}, {"s": 1, "do": "g", "tree": "ClientClosedError"}):
+        for eager in (False, True):
+            cs.append({"api": "high", "naddr": 2, "early": [], "eager": eager,
+                       "progs": {"0": [[Y, end], [Y, Y, {**end, "s": 0}], [Y]]},
+                       "script": [[["a", 0, "01"]], [["a", 0, "02"], ["a", 0, "03"], ["a", 1, "0a"]], [["g", 0]], [],
+                                  [["a", 0, "04"]], [["a", 0, "05"], ["a", 1, "0b"]]], "never": []})
+            cs.append({"api": "high", "naddr": 1, "early": [], "eager": eager,
+                       "progs": {"0": [[end], [Y, end], [{**end, "s": 0}], [Y]]},
+                       "script": [[["a", 0, "01"], ["a", 0, "02"], ["a", 0, "03"]], [["g", 0], ["a", 0, "04", 1]], [["g", 0]],
+                                  [["a", 0, "05"]]], "never": []})
+    # eager task factory: a burst queued behind a generator that waits, then ends (return / exception / cancelled): the
+    # task-done hook re-spawns the client coroutine, whose first step now runs INSIDE start_soon()
+    for api in ("low", "high"):
+        for do in ("r", "e", "c"):
+            cs.append({"api": api, "naddr": 2, "early": [], "eager": True,
+                       "progs": {"0": [[Y, {"s": 1, "do": do}]] * 4},
+                       "script": [[["a", 0, "01"], ["a", 0, "02"], ["a", 0, "03"], ["a", 1, "0a"]], [], [["g", 0]], [["a", 0, "04"]],
+                                  [["g", 0], ["a", 1, "0b"]], []], "never": []})
     # a backlog larger than any plausible batch size received before serve(), and datagrams of the same addresses read
     # in the first turns after serve() started: the parked ones go first, per address
     for n, naddr in ((17, 1), (40, 1), (50, 2)):
@@ -282,9 +320,37 @@ def _rand_prog(rng, high: bool) -> list[dict]:
             prog.append({"s": s, "do": "c"})
             break
         else:
-            prog.append({"s": s, "do": "e" if high else "r"})
+            prog.append(_exc_end(rng, s) if high else {"s": s, "do": "r"})
             break
     return prog
+
+
+GROUP_TREES = [
+    ["g", "RuntimeError"], ["g", "ValueError", "OSError"], ["g", ["g", "UserError"]], ["g", ["g", "ValueError"], "RuntimeError"],
+    ["g", "ClientClosedError", "RuntimeError"], ["g", "ClientClosedError"], ["g", ["g", "ClientClosedError"], ["g", "ConnectionResetError"]],
+    "ClientClosedError", "ValueError", "ConnectionResetError",
+]
+
+
+def _rand_tree(rng, depth: int = 2):
+    if depth <= 0 or rng.random() < 0.4:
+        return rng.choice(env.GROUP_LEAVES)
+    return ["g"] + [_rand_tree(rng, depth - 1) for _ in range(rng.randint(1, 3))]
+
+
+def _exc_end(rng, s: int) -> dict:
+    """a generator that ends with an exception (api high: swallowed and logged by _ClientContext.__aexit__): a plain one,
+    an ExceptionGroup (flat / nested / mixed with or made only of ClientClosedError), or the group raised by a real
+    asyncio.TaskGroup whose children fail"""
+    r = rng.random()
+    if r < 0.3:
+        return {"s": s, "do": "e"}
+    if r < 0.5:
+        return {"s": s, "do": "tg", "n": rng.choice([1, 1, 2, 3])}
+    if r < 0.8:
+        return {"s": s, "do": "g", "tree": rng.choice(GROUP_TREES)}
+    t = _rand_tree(rng)
+    return {"s": s, "do": "g", "tree": t if not isinstance(t, str) or rng.random() < 0.3 else ["g", t]}
 
 
 def _rand_case(rng) -> dict:
@@ -333,12 +399,17 @@ def _dense_case(rng) -> dict:
         return f"{cnt[0]:02x}"
 
     progs = {}
+    api = rng.choice(["low", "low", "high"])
     for a in range(naddr):
         ps = []
         for _ in range(rng.randint(1, 5)):
             k = rng.choice([0, 1, 1, 2, 2, 3])
             prog = [{"s": rng.choice([0, 0, 1]), "do": "y"} for _ in range(k)]
-            prog.append({"s": rng.choice([0, 1, 1]), "do": rng.choice(["r", "r", "r", "c"])})
+            s_end = rng.choice([0, 1, 1])
+            if api == "high" and rng.random() < 0.2:
+                prog.append(_exc_end(rng, s_end))
+            else:
+                prog.append({"s": s_end, "do": rng.choice(["r", "r", "r", "c"])})
             ps.append(prog)
         progs[str(a)] = ps
     script = []
@@ -350,7 +421,7 @@ def _dense_case(rng) -> dict:
             else:
                 t.append(["g", rng.randrange(naddr)])
         script.append(t)
-    return {"api": rng.choice(["low", "low", "high"]), "naddr": naddr, "early": [], "progs": progs, "script": script, "never": []}
+    return {"api": api, "naddr": naddr, "early": [], "progs": progs, "script": script, "never": []}
 
 
 def _backlog_case(rng) -> dict:
@@ -407,7 +478,7 @@ def _cancel_end_case(rng) -> dict:
         for _ in range(rng.randint(1, 4)):
             k = rng.choice([0, 1, 1, 1, 2])
             prog = [{"s": rng.choice([0, 0, 1]), "do": rng.choice(["y", "y", "y", "yt"]), "t": rng.choice([0, 1, 2])} for _ in range(k)]
-            prog.append({"s": rng.choice([0, 1, 1, 2]), "do": rng.choice(["c", "c", "c", "r", "e"])})
+            prog.append({"s": rng.choice([0, 1, 1, 2]), "do": rng.choice(["c", "c", "c", "r", "e", "tg"])})
             ps.append(prog)
         progs[str(a)] = ps
     script = []
@@ -426,14 +497,66 @@ def _cancel_end_case(rng) -> dict:
     return {"api": rng.choice(["low", "high"]), "naddr": naddr, "early": early, "progs": progs, "script": script, "never": []}
 
 
+def _exc_end_case(rng) -> dict:
+    """api high: generators that end with an EXCEPTION after 0-2 requests — plain, ExceptionGroup (flat, nested, mixed with
+    ClientClosedError), the group of a real asyncio.TaskGroup whose child fails — while datagrams of their address are
+    queued behind them, arrive in the same turn, or arrive later, and a second address goes on: everything must still be
+    handled, in order, by a fresh generator; the neighbour is not affected; the server stays up"""
+    naddr = rng.choice([1, 2, 2, 3])
+    cnt = [0]
+
+    def dgram() -> str:
+        cnt[0] += 1
+        return f"{cnt[0]:02x}" if cnt[0] != 0x21 else "20"
+
+    progs = {}
+    for a in range(naddr):
+        if a > 0 and rng.random() < 0.4:
+            continue                            # a quiet neighbour: one long-lived generator
+        ps = []
+        for _ in range(rng.randint(1, 4)):
+            k = rng.choice([0, 1, 1, 1, 2])
+            prog = [{"s": rng.choice([0, 0, 1]), "do": rng.choice(["y", "y", "y", "yt"]), "t": rng.choice([0, 1, 2])} for _ in range(k)]
+            s_end = rng.choice([0, 1, 1, 2])
+            prog.append(_exc_end(rng, s_end) if rng.random() < 0.8 else {"s": s_end, "do": rng.choice(["r", "c"])})
+            ps.append(prog)
+        progs[str(a)] = ps
+    script = []
+    for _ in range(rng.randint(2, 9)):
+        t: list = []
+        for _ in range(rng.choice([0, 1, 1, 2, 3])):
+            r = rng.random()
+            if r < 0.6:
+                t.append(["a", rng.randrange(naddr) if rng.random() < 0.5 else 0, dgram(), rng.choice([0, 0, 0, 1, 2])])
+            elif r < 0.94:
+                t.append(["g", rng.randrange(naddr)])
+            else:
+                t.append(["t", rng.choice([1, 2])])
+        script.append(t)
+    early = [[rng.randrange(naddr), dgram()] for _ in range(rng.choice([0, 0, 0, 1, 2]))]
+    return {"api": "high", "naddr": naddr, "early": early, "progs": progs, "script": script, "never": []}
+
+
+def _with_eager(rng, case: dict) -> dict:
+    """every sixth case runs on a loop whose task factory is asyncio.eager_task_factory (explicitly supported by the
+    server: see the comment in AsyncDatagramServer.__on_client_coroutine_task_done): a task's first step runs inside
+    start_soon() / create_task()"""
+    if rng.random() < 1 / 6:
+        case["eager"] = True
+    return case
+
+
 def generate(rng, tier: str, boost: int):
     n = (3000 if tier == "quick" else 20000) * boost
+    erng = core.sub_rng(rng.getrandbits(32), "c16-eager")
     for i in range(n):
-        yield _dense_case(rng) if rng.random() < 0.4 else _rand_case(rng)
+        yield _with_eager(erng, _dense_case(rng) if rng.random() < 0.4 else _rand_case(rng))
         if i % 10 == 3:
-            yield _cancel_end_case(rng)
+            yield _with_eager(erng, _cancel_end_case(rng))
+        elif i % 10 == 6:
+            yield _with_eager(erng, _exc_end_case(rng))
         elif i % 20 == 7:
-            yield _backlog_case(rng)
+            yield _with_eager(erng, _backlog_case(rng))
     if tier != "quick" and boost == 1:
         # exhaustive: one address, every sequence of 6 turns over {arrival, arrival whose handler sleeps 2 turns at the
         # lock, gate release}, against three generator behaviours (finish after every request / every second request /
